@@ -1,4 +1,5 @@
 """C03 -- a root update is accepted iff version + 1 and signed per the old and the new root rules (see harness/vdeleg.py)"""
+import sys
 from pysym.framework import Unit
 from pysym import concrete as CC
 from harness import vdeleg
@@ -7,16 +8,28 @@ ID = 'C03'
 PROPS = ('C03',)
 
 
-def units(tier):
+def configs(tier):
     q = tier == 'quick'
-    us = [Unit('verify_root:R2', vdeleg.factory_vr('r2', PROPS, R=2, M=1, N=1),
-               expect=('accepts', 'rejects:MetadataVerificationError', 'rejects:SignatureError', 'rejects:ValueError'), max_witnesses=300)]
+    cs = [('verify_root:R2', 'r2', dict(R=2, M=1, N=1, ver_kinds=('int', 'float'), ver_kinds_U=('int', 'bool')), {}, ('accepts', 'rejects:MetadataVerificationError', 'rejects:SignatureError', 'rejects:ValueError'), 300)]
     if not q:
-        us.append(Unit('verify_root:R2M2N2', vdeleg.factory_vr('r22', PROPS, R=2, M=2, N=2, thr_kinds=('int', 'bool', 'float')), expect=('accepts',), max_witnesses=800))
-    return us
+        cs.append(('verify_root:R2M2N2', 'r22', dict(R=2, M=2, N=2, thr_kinds=('int', 'bool', 'float')), {}, ('accepts',), 800))
+    return cs
+
+
+def pre(res, tier):
+    lem = []
+    for name, ns, kw, extra, expect, nw in configs(tier):
+        lem += vdeleg.lemma_units('vr', ns, **kw)
+    vdeleg.prove_checker_lemmas(res, sys.modules[__name__], lem)
+
+
+def units(tier):
+    return [Unit(name, vdeleg.factory_vr(ns, PROPS, **extra, **kw), expect=expect, max_witnesses=nw) for name, ns, kw, extra, expect, nw in configs(tier)]
 
 
 def concrete(case):
+    if case.get('scenario') == 'lemma':
+        return {}
     return vdeleg.run_vr(case)
 
 
@@ -25,11 +38,14 @@ def agrees(case, obs):
 
 
 def judge(case, obs):
+    if case.get('scenario') == 'lemma':
+        return None
     return vdeleg.judge_vr(case, obs, PROPS)
 
 
-BOUNDS = dict(documents='trusted and offered root: delegating metadata with 2 roles of free names (so "root" may be missing on either side), 1 (quick) / 2 (thorough) free keys each, int thresholds (thorough: bool / binary64), free declared types (<= 8 chars), versions int / bool / all of binary64',
+BOUNDS = dict(documents='trusted and offered root: delegating metadata with 2 roles of free names (so "root" may be missing on either side), 1 (quick) / 2 (thorough) free keys each, int thresholds (thorough: bool / binary64), free declared types (<= 8 chars), versions: trusted int / binary64, offered int / bool (quick); int / bool / binary64 on both sides (thorough); binary64 holes range over NaN, +-inf and finite values of magnitude < 2**62',
               signatures='1 (quick) / 2 (thorough) entries under free keys, raw- or OpenPGP-shaped with free strings')
 OUTSIDE = 'more roles / keys / entries than stated; ed25519 forgeability (Valid uninterpreted)'
 ASSUMPTIONS = ['A2, A3; version + 1 is compared in exact integer arithmetic by the oracle (the code is interpreted with IEEE-754 binary64 semantics for float versions)',
-               'the <= direction is asserted for int-typed thresholds only (a float threshold passes the checker and is then rejected by verify_signable: fail-closed)']
+               'the <= direction is asserted for int-typed thresholds only (a float threshold passes the checker and is then rejected by verify_signable: fail-closed)',
+               'the checker is replaced by the C14 schema on a template only after `checker accepts <=> schema` was proved for that very template in the same run']
